@@ -364,6 +364,18 @@ def late_corpus():
                 "acqs": ["acq1"], "files": [{"acq": "acq1", "name": "f.dat", "size": 150}], "copies": [{"file": 0, "node": "n1", "has": "Y", "wants": "Y"}],
                 "reqs": [{"file": 0, "from": "n1", "to": "g2", "state": "pending"}], "rules": [], "unregistered": [], "ireqs": []}
         out.append((spec, [("iter", "h1"), ("cli", "node activate", ["n1"]), list(change), ("iter", "h1"), ("iter", "h1")]))
+    # the operator points a running node at the wrong disk (one whose marker names another, inactive node) and releases its copy:
+    # the marker is read where the node's root is NOW, so the node is left alone and nothing on that disk is touched
+    for m_active in (False, True):
+        spec = {"groups": [{"name": f"g{i}"} for i in (1, 2, 3, 4)],
+                "nodes": [{"name": "n1", "group": "g1", "stype": "F", "host": "h1", "active": True, "username": "u", "address": "addr"},
+                          {"name": "m", "group": "g2", "stype": "A", "host": "h1" if not m_active else "h3", "active": m_active, "username": "u", "address": "addr"},
+                          {"name": "k1", "group": "g3", "stype": "A", "host": "h2", "active": True, "username": "u", "address": "addr"},
+                          {"name": "k2", "group": "g4", "stype": "A", "host": "h2", "active": True, "username": "u", "address": "addr"}],
+                "acqs": ["acq1"], "files": [{"acq": "acq1", "name": "f.dat", "size": 150}],
+                "copies": [{"file": 0, "node": n, "has": "Y", "wants": "Y"} for n in ("n1", "m", "k1", "k2")],
+                "reqs": [], "rules": [], "unregistered": [], "ireqs": []}
+        out.append((spec, [("iter", "h1"), ("cli", "node modify", ["n1", "--root={root:m}"]), ("cli", "file clean", ["acq1/f.dat", "--node=n1", "--now"]), ("iter", "h1"), ("iter", "h1")]))
     return out
 
 
